@@ -2,10 +2,12 @@
     The reference semantics and the layout roots are included so that a private
     binary built from this root can also serve the oracle commands of
     extract/drv_design.ml and extract/drv_layout.ml. *)
-From SP Require Check.Mismatch Check.FragmentProofs Check.NestProofs Extract.RootsDesign Extract.RootsLayout.
+From SP Require Check.Mismatch Check.FragmentProofs Check.NestProofs Check.DerivedFrag Extract.RootsDesign Extract.RootsLayout.
 Definition roots := (Check.Mismatch.mismatch, Check.Mismatch.no_mismatch,
                      Check.Mismatch.mismatch_factors, Check.Mismatch.mismatch_constraints,
                      Check.Mismatch.mismatch_crossings, Check.Mismatch.counts,
                      Check.NestProofs.nfrag, Check.NestProofs.code_sem_n, Check.FragmentProofs.wf_rowsb,
                      Check.FragmentProofs.cand_of_rows,
+                     Check.DerivedFrag.dfrag, Check.DerivedFrag.dfrag_w, Check.DerivedFrag.code_sem_d,
+                     Check.DerivedFrag.wf_rowsb_d, Check.DerivedFrag.dfrag_why,
                      Extract.RootsDesign.roots, Extract.RootsLayout.roots).
